@@ -698,6 +698,11 @@ pub fn run_unit(prop: &str, tier: Tier, seed: u64, want_sample: bool) -> UnitRes
 }
 
 pub fn absorb_any(res: &mut UnitResult, case: crate::anycase::AnyCase, want_sample: bool) {
+    if crate::exec::ANNOUNCE.with(|a| a.get()) && !matches!(case, crate::anycase::AnyCase::Lib(_)) {
+        use std::io::Write;
+        println!("A {}", case.to_json().to_string());
+        let _ = std::io::stdout().flush();
+    }
     let out = case.check();
     res.cases += 1;
     res.traces.push((out.trace, out.nontrivial()));
